@@ -34,6 +34,12 @@ Theorem C07_formats_agree : forall filt files cube par_names out1 out2,
   forall r1 r2, In r1 out1 -> In r2 out2 -> cr_name r1 = cr_name r2 -> r1 = r2.
 Proof. exact formats_agree. Qed.
 
+(* the spectral order in which an SED file or the cube stores its arrays does not change its convolved row *)
+Theorem C07_storage_order : forall filt s, sd_nu s <> [] ->
+  (hd 0%Q (sd_nu s) < last (sd_nu s) 0%Q \/ last (sd_nu s) 0%Q < hd 0%Q (sd_nu s))%Q ->
+  conv_sed filt (rev_spectral s) = conv_sed filt s.
+Proof. exact conv_sed_storage_order. Qed.
+
 (* the index identity of sort_to_match *)
 Theorem C07_sort_to_match : forall a r, NoDup r -> Permutation a r -> gatherK a (order_to_match a r) = r.
 Proof. exact Table.C07_sort_to_match. Qed.
